@@ -61,7 +61,9 @@ func safeWrite(op string) bool {
 	return true
 }
 
-func clusterProgram(rng *rand.Rand, prog []string) []string {
+func clusterProgram(rng *rand.Rand, prog []string) []string { return clusterProgramOpt(rng, prog, false) }
+
+func clusterProgramOpt(rng *rand.Rand, prog []string, crashes bool) []string {
 	notif := "1"
 	if strings.Contains(prog[0], "notif=0") || rng.Intn(4) == 0 {
 		notif = "0"
@@ -70,12 +72,13 @@ func clusterProgram(rng *rand.Rand, prog []string) []string {
 	off := int64(0)
 	ts := uint64(1000)
 	joined := false
-	leader := "n0"
-	follower := func() string {
-		if leader == "n0" {
-			return "n1"
+	// restarts, crashes and elections name a node; who leads at that point is up to the harness (it
+	// elects the best responder, restarts only followers in place)
+	anyNode := func() string {
+		if joined && rng.Intn(3) == 0 {
+			return "n2"
 		}
-		return "n0"
+		return []string{"n0", "n1"}[rng.Intn(2)]
 	}
 	checkpoint := func() {
 		// the leader's state, then a marker entry (it carries the commit offset of that state to the
@@ -103,20 +106,22 @@ func clusterProgram(rng *rand.Rand, prog []string) []string {
 		writes++
 		switch r := rng.Intn(16); {
 		case r == 0:
-			ops = append(ops, "c.restart "+follower())
+			ops = append(ops, "c.restart "+anyNode())
 		case r == 1:
 			// with a checkpoint first, the new leader replays only the marker entry; without, the request
 			// just written (committed, but not yet applied by the follower)
 			if rng.Intn(2) == 0 {
 				checkpoint()
 			}
-			leader = follower()
-			ops = append(ops, "c.elect "+leader)
+			ops = append(ops, "c.elect "+anyNode())
 		case r == 2 && !joined && writes > 2:
 			ops = append(ops, "c.join")
 			joined = true
 		case r == 3:
 			checkpoint()
+		case (r == 4 || r == 5) && crashes:
+			// a crash: the database falls back to its last flush, the node replays from there
+			ops = append(ops, "c.crash "+anyNode())
 		}
 	}
 	if !joined {
@@ -147,6 +152,15 @@ var (
 	reNotifTs = regexp.MustCompile(`N\((-?\d+),(\d+),`)
 	reVerTs   = regexp.MustCompile(`ct=(\d+),mt=(\d+)`)
 )
+
+func (e *c06Exec) isMember(name string) bool {
+	for _, m := range e.members {
+		if m == name {
+			return true
+		}
+	}
+	return false
+}
 
 func (e *c06Exec) canon(s string) string {
 	m := func(t string) string {
@@ -314,6 +328,9 @@ func (e *c06Exec) op(op string) string {
 		}
 		return e.lastDump
 	case "c.restart":
+		if !e.isMember(f[1]) {
+			return "ok"
+		}
 		if ld := e.c.LeaderNode(); ld != nil && ld.Name == f[1] {
 			return "ok" // only followers are restarted in place
 		}
@@ -322,6 +339,9 @@ func (e *c06Exec) op(op string) string {
 		}
 		return "ok"
 	case "c.elect":
+		if !e.isMember(f[1]) {
+			return "ok"
+		}
 		if err := e.c.Elect(f[1], e.members); err != nil {
 			msg := "err:elect:" + strings.ReplaceAll(err.Error(), " ", "_")
 			if strings.Contains(msg, "failed_to_applies_wal_entries_to_db") {
@@ -331,6 +351,33 @@ func (e *c06Exec) op(op string) string {
 			// no leader and is not comparable
 			e.poisoned = true
 			return "~" + msg
+		}
+		return "ok"
+	case "c.crash":
+		if !e.isMember(f[1]) {
+			return "ok" // the node has not joined yet
+		}
+		wasLeader, err := e.c.Crash(f[1])
+		if err != nil {
+			e.poisoned = true
+			return "~err:crash:" + strings.ReplaceAll(err.Error(), " ", "_")
+		}
+		if wasLeader {
+			// the shard needs a new leader: the coordinator elects the best responder, another node if possible
+			cand := f[1]
+			for _, m := range e.members {
+				if m != f[1] {
+					cand = m
+				}
+			}
+			if err := e.c.Elect(cand, e.members); err != nil {
+				msg := "err:elect:" + strings.ReplaceAll(err.Error(), " ", "_")
+				if strings.Contains(msg, "failed_to_applies_wal_entries_to_db") {
+					return msg
+				}
+				e.poisoned = true
+				return "~" + msg
+			}
 		}
 		return "ok"
 	case "c.join":
@@ -430,3 +477,40 @@ func (C06) Nontrivial(ops []string, outs []string) bool {
 }
 
 var _ = kv.ErrKeyNotFound
+
+// C07: the same cluster scripts with crashes: a node's database falls back to its last flush (Pebble runs
+// without its own WAL) while the shard's WAL is kept; the node replays from the commit offset it finds in
+// the database. Checked like C06: every replica equals the leader - and M-Db - at the same commit offset.
+type C07 struct{ C06 }
+
+func (C07) Generate(rng *rand.Rand, tier string) []core.Case {
+	n := 60
+	if tier == "thorough" {
+		n = 1500
+	}
+	var cases []core.Case
+	for i := 0; i < n; i++ {
+		g := &dbGen{rng: rng, ts: 1000}
+		mode := []string{"mix", "idx", "mix", "seq", "notif"}[rng.Intn(5)]
+		prog := g.program(mode, 10+rng.Intn(30))
+		cases = append(cases, core.Case{Name: fmt.Sprintf("crash-%s-%d", mode, i), Ops: clusterProgramOpt(rng, prog, true)})
+	}
+	return cases
+}
+
+func (c C07) Oracle(ops, impl, model []string) string {
+	msg := c.C06.Oracle(ops, impl, model)
+	if msg == "" {
+		return ""
+	}
+	crashed := false
+	for _, o := range ops {
+		if strings.HasPrefix(o, "c.crash") {
+			crashed = true
+		}
+	}
+	if crashed {
+		return msg + " [the script contains a crash: the replica's database is not the in-order, exactly-once application of its log up to its commit offset]"
+	}
+	return msg
+}
